@@ -151,7 +151,18 @@ func sameValue(a, b ssa.Value) bool {
 		return true
 	}
 	if la, ok := a.(*ssa.UnOp); ok && la.Op == token.MUL {
-		if lb, ok := b.(*ssa.UnOp); ok && lb.Op == token.MUL && la.X == lb.X {
+		if lb, ok := b.(*ssa.UnOp); ok && lb.Op == token.MUL {
+			if la.X != lb.X {
+				fa, ok1 := la.X.(*ssa.FieldAddr)
+				fb, ok2 := lb.X.(*ssa.FieldAddr)
+				return ok1 && ok2 && fa.X == fb.X && fa.Field == fb.Field
+			}
+			if fa, ok := la.X.(*ssa.FieldAddr); ok {
+				// it.err idiom: two loads of the same field of the same object
+				if fb, ok := lb.X.(*ssa.FieldAddr); ok && fa.X == fb.X && fa.Field == fb.Field {
+					return true
+				}
+			}
 			switch la.X.(type) {
 			case *ssa.Alloc, *ssa.FreeVar:
 				// two loads of the same local/captured variable (used for the
